@@ -133,7 +133,7 @@ func checkC08(c *Ctx, r *Report) {
 	r.rule("positions-owners", 5, "Prog.positions is appended only by Prog.write, allocated by initForParse/Load; token.pos is set only by emit/emitError and read only by the emitters, errorAt and String")
 	c.ownership(r, "positions-owners", "Prog", "positions", progOwners["positions"], false)
 	c.ownership(r, "positions-owners", "token", "pos", map[string]string{
-		"lexer.emit": "stamps the token", "lexer.emitError": "stamps the error token", "parser.emitOp": "position of the code byte", "parser.emitByte": "position of the code byte",
+		"lexer.emit": "stamps the token", "lexer.emitError": "stamps the error token", "lexer.fail": "stamps the error token (finaliser)", "parser.emitOp": "position of the code byte", "parser.emitByte": "position of the code byte",
 		"parser.emitBytes": "position of the code bytes", "parser.errorAt": "diagnostic position", "token.String": "debug rendering",
 	}, false)
 	r.rule("line-table-owners", 2, "the line table is written only by lineCalc.add (and built by newLineCalc/Load); lookups do not modify it")
